@@ -35,9 +35,13 @@ def mk_timezone(E, st, prefix, fresh=False, tag="p:", unknown=False):
 
 
 def mk_timepoint(E, st, prefix, date="cal", time="hms", fresh=False, tag="p:",
-                 tz=True, ned=0):
+                 tz=True, ned=0, integral=True):
+    """integral=True: the fields a NORMAL point of this time form keeps integral
+    (hour when minutes are present, minute when seconds are present) are built
+    as ToReal(<Int symbol>); use integral=False for un-normalised states."""
     I = lambda n: z3.Int(tag + prefix + "." + n)
     R = lambda n: z3.Real(tag + prefix + "." + n)
+    RI = (lambda n: z3.ToReal(z3.Int(tag + prefix + "." + n))) if integral else R
     slots = {k: None for k in TP_SLOTS}
     slots["_num_expanded_year_digits"] = ned
     slots["_truncated"] = False
@@ -50,9 +54,11 @@ def mk_timepoint(E, st, prefix, date="cal", time="hms", fresh=False, tag="p:",
     else:
         slots["_week_of_year"] = I("_week_of_year")
         slots["_day_of_week"] = I("_day_of_week")
-    slots["_hour_of_day"] = R("_hour_of_day")
+    slots["_hour_of_day"] = RI("_hour_of_day") if time in ("hms", "hm") \
+        else R("_hour_of_day")
     if time in ("hms", "hm"):
-        slots["_minute_of_hour"] = R("_minute_of_hour")
+        slots["_minute_of_hour"] = RI("_minute_of_hour") if time == "hms" \
+            else R("_minute_of_hour")
     if time == "hms":
         slots["_second_of_minute"] = R("_second_of_minute")
     slots["_time_zone"] = mk_timezone(E, st, prefix + "._time_zone", fresh=fresh,
@@ -65,11 +71,28 @@ def fresh_duration(E, st, form, tag):
     return mk_duration(E, st, "%s!%d" % (tag, E.fresh_n), form, fresh=True, tag="")
 
 
-def fresh_timepoint_like(E, st, ref, tag):
+def normal_time_fields(E, slots, name):
+    """Fresh symbols for the time fields of a NORMAL point with the None-ness of
+    `slots`: integral fields as ToReal(Int)."""
+    out = {}
+    has_m = slots.get("_minute_of_hour") is not None
+    has_s = slots.get("_second_of_minute") is not None
+    out["_hour_of_day"] = z3.ToReal(z3.Int(name + "._hour_of_day")) if has_m \
+        else z3.Real(name + "._hour_of_day")
+    if has_m:
+        out["_minute_of_hour"] = z3.ToReal(z3.Int(name + "._minute_of_hour")) \
+            if has_s else z3.Real(name + "._minute_of_hour")
+    if has_s:
+        out["_second_of_minute"] = z3.Real(name + "._second_of_minute")
+    return out
+
+
+def fresh_timepoint_like(E, st, ref, tag, normal=True):
     """A fresh TimePoint with the same shape (None-ness) as `ref`."""
     E.fresh_n += 1
     h = st.obj(ref)
     slots = {}
+    nt = normal_time_fields(E, h.slots, "%s!%d" % (tag, E.fresh_n)) if normal else {}
     for k, v in h.slots.items():
         if k == "_time_zone":
             z = st.obj(v)
@@ -78,6 +101,8 @@ def fresh_timepoint_like(E, st, ref, tag):
                 zs[zk] = E.fresh_like(zv, "%s!%d._tz.%s" % (tag, E.fresh_n, zk)) \
                     if zk in ("_hours", "_minutes") else zv
             slots[k] = E.new_obj(st, "TimeZone", zs, fresh=True)
+        elif k in nt and v is not None:
+            slots[k] = nt[k]
         elif k in ("_year", "_month_of_year", "_day_of_year", "_day_of_month",
                    "_day_of_week", "_week_of_year", "_hour_of_day",
                    "_minute_of_hour", "_second_of_minute"):
